@@ -170,7 +170,7 @@ def check_tissue(t, cm, ans, model):
 # ---------------------------------------------------------------- run
 def build_cases(seed, tier, cm, widen):
     r = Rng(seed).fork("c06/%d" % cm)
-    n = (18 if tier == "quick" else 110) * (3 if widen else 1)
+    n = (45 if tier == "quick" else 900) * (3 if widen else 1)
     ts = cc.corpus_tissues()
     kinds = ["cluster", "nested", "far", "straddle", "aligned", "pairclose", "single", "apart"]
     for k in kinds:                       # every kind at least once
